@@ -66,6 +66,11 @@ def _dry_finish(R):
 
 
 def main(argv):
+    import signal
+    try:
+        signal.signal(signal.SIGPIPE, signal.SIG_DFL)
+    except Exception:
+        pass
     if not argv:
         print(__doc__)
         return 2
